@@ -197,9 +197,23 @@ def check_instance(run, db, cls, fns):
             run.violation('R-ITER', inst, f.loc, '; '.join(sorted(set(probs))), site=site)
         else:
             run.ok('R-ITER', inst, f.loc, 'cur_ := (cur_ + 1) % N, then stacks_[cur_].unwind(block_start(cur_))')
-    # ---- who may reset / reassign a region stack
+    # ---- who may reset / reassign a region stack: constructors, move operations, next_iteration - and private helpers that are
+    # only called from those (an extracted common tail)
+    allowed = {f.key for f in fns if f.kind in ('ctor', 'move-ctor', 'move-assign') or f.short == 'next_iteration'}
+    callers = {}
+    for g in fns:
+        for e, t in flow.call_events(g):
+            if t.get('cls') == g.cls and t.get('key') != g.key:
+                callers.setdefault(t.get('key'), set()).add(g.key)
+    changed = True
+    while changed:
+        changed = False
+        for g in fns:
+            if g.key not in allowed and callers.get(g.key) and callers[g.key] <= allowed:
+                allowed.add(g.key)
+                changed = True
     for f in fns:
-        if f.kind in ('ctor', 'move-ctor', 'move-assign') or f.short == 'next_iteration':
+        if f.key in allowed:
             continue
         bad = [t for e, t in flow.call_events(f) if t.get('short') in ('unwind', 'operator=') and 'stacks_' in sym.canon(t.get('recv') or {})]
         if bad:
